@@ -7,7 +7,7 @@
 From Coq Require Import String.
 From Coq Require Import List Ascii ZArith Bool.
 From CGV Require Import Base.PyBase Base.PyVal Gen.FragGen Dialect.DialectImpl Frag.NDict Frag.StripImpl Frag.FragText
-     Frag.StripFacts Frag.FragProofs Frag.FragStages Frag.FragSmall.
+     Frag.StripFacts Frag.FragProofs Frag.FragStages Frag.FragSmall Frag.RingProofs.
 Import ListNotations.
 
 (** The full statement
@@ -85,6 +85,15 @@ Proof. exact peekiter_abs_next_stop. Qed.
 Theorem C13_peekiter_peek : forall it, fst (pi_peek it) = hd_error (pi_rest it) /\ pi_rest (snd (pi_peek it)) = pi_rest it.
 Proof. exact peekiter_abs_peek. Qed.
 
+(** the literal model of collect_ring_number consumes exactly the run of digits and '%' after its
+    first token, returns it as partial_str and leaves the iterator at the next character (what
+    mode MRing of the machine does); the rings dictionary is local and never returned *)
+Theorem C13_collect_ring_number : forall it token nc rings, exists it' rings',
+  collect_ring_number it token nc rings
+    = Ok (it', hd_error (drop_ring (pi_rest it)), token :: take_ring (pi_rest it), rings')
+  /\ pi_rest it' = drop_ring (pi_rest it).
+Proof. exact collect_ring_number_spec. Qed.
+
 (** ties to the tables generated from read_fragments.py: the documented orders, the descriptor
     kinds, and the fact about the two-letter list the proof uses *)
 Theorem C13_table_orders : forall b, order_lookup (bchar b) = Some (border b).
@@ -103,3 +112,4 @@ Print Assumptions C13_atomistic.
 Print Assumptions C13_coarse.
 Print Assumptions C13_small.
 Print Assumptions C13_peekiter_peek.
+Print Assumptions C13_collect_ring_number.
